@@ -140,7 +140,7 @@ DESCR = {
     "Std": "the standard configuration: `stdPrims`, `stdOut`, filter table Num ++ Str ++ Arr ++ Json ++ Date (all 48 registered filters), file-system model, canonical result printing",
     "Conc": "interleaving machine over a store with ownership regions (C04)",
     "ConcFacts": "the store facts (`WriteFact.offending`: the statically checked necessary condition of C04's ownership premise) and the call facts (`auditedGlobalCalls`: the five audited read-only package-level variables) over the generated write table",
-    "MapIterFacts": "the eight audited map-iteration sites of the library with the reason why the order cannot reach the output (sorted before use / copied into a fresh map / conjunction over all entries); read from the source, not proved (T5, C02)",
+    "MapIterFacts": "the ten audited map-iteration sites of the library with the reason why the order cannot reach the output (sorted before use / copied into a fresh map / conjunction over all entries); read from the source, not proved (T5, C02)",
     "MapOrder": "`values/sort.go`: `keyClass`, `valueLess`, `numberLess`, `keyTypeName`, `keyLess` clause by clause and `sortedEntries` (stable insertion sort by key) = the order of `values.SortedMapKeys`, called by every place of the model that iterates a map (a map value holds its entries in no particular order); `sortedFields` for `IterationKeyedMap`; the codec's canonical order (`canonOrder`, `canonEnc`) for result lines and for `uniq`",
     "Driver": "line-protocol dispatcher (one op per line → one canonical result line)",
     "Filters/Num": "numeric filter bodies (plus minus times divided_by modulo abs ceil floor round, default, size)",
